@@ -9,7 +9,7 @@
 use crate::rng::Rng;
 
 pub const BRANCHES: usize = 12;
-pub const GLUES: usize = 25;
+pub const GLUES: usize = 27;
 
 #[derive(Clone, Debug)]
 pub struct Shape {
@@ -63,6 +63,7 @@ pub const GLUE_NAMES: [&str; GLUES] =
     "one-clause-match-of-conditional", "one-clause-match-of-match", "body-of-applied-object", "bound-position", "scrutinee-argument", "condition", "goto-argument", "unused-let-of-call", "unused-let-of-branch", "let-then-operation-over-rest", "let-then-constructor-over-rest",
     "let-of-destructor-result-of-data-type", "let-of-destructor-result-then-clause",
     "clause-of-match-on-label-block", "argument-of-destructor-on-label-block",
+    "argument-of-destructor-on-conditional", "argument-of-destructor-on-match",
 ];
 
 const DECLS: &str = "data P2 { Tup(a: i64, b: i64) }\ndata T3 { A, B, C }\ndata T5 { K1, K2(x: i64), K3(x: i64, y: i64), K4, K5(t: T3) }\ncodata Obj3 { m1: i64, m2(x: i64): i64, m3: Obj3 }\ncodata Fun { ap(x: i64): i64 }\ncodata Mk { get(x: i64): T3, get5(x: i64): T5 }\ndef mkr(n: i64): Mk { new { get(x) => mk(x + n), get5(x) => mk5(x + n) } }\ndef mk(n: i64): T3 { if n == 0 { A } else { if n == 1 { B } else { C } } }\ndef mk5(n: i64): T5 { if n == 0 { K1 } else { if n == 1 { K2(n) } else { if n == 2 { K3(n, n) } else { if n == 3 { K4 } else { K5(mk(n)) } } } } }\ndef obj(n: i64): Obj3 { new { m1 => n, m2(x) => x + n, m3 => obj(n + 1) } }\ndef id(x: i64): i64 { x }\ndef add3(a: i64, b: i64, c: i64): i64 { a + (b + c) }\n";
@@ -131,6 +132,10 @@ fn glue(g: usize, b: usize, i: usize, prev: &str, rest: &dyn Fn(&str) -> String)
         // the scrutinee / the receiver is directly a label block that reaches its label in two places
         23 => format!("let {v}: i64 = {be};\n  (label s{i} {{ if {v} == {i} {{ goto s{i}(mk({i})) }} else {{ mk({v}) }} }}).case {{ A => {i}, B => {v}, C => {} }}", rest(&v)),
         24 => format!("let {v}: i64 = {be};\n  (label s{i} {{ if {v} == {i} {{ goto s{i}(obj({i})) }} else {{ obj({v}) }} }}).m2(({}))", rest(&v)),
+        // the rest as the argument of a destructor whose receiver is directly a conditional / a match
+        // of codata type (seed C19-r14: the consumer that is shared is a destructor with arguments)
+        25 => format!("let {v}: i64 = {be};\n  (if {v} == {i} {{ obj({v}) }} else {{ obj({i}) }}).m2(({}))", rest(&v)),
+        26 => format!("let {v}: i64 = {be};\n  (mk({v}).case {{ A => obj({v}), B => obj({i}), C => obj(1) }}).m2(({}))", rest(&v)),
         _ => format!("let m{i}: Mk = mkr({i});\n  let {v}: i64 = {be};\n  let t{i}: T5 = m{i}.get5({v});\n  t{i}.case {{ K1 => 1, K2(p{i}) => p{i}, K3(p{i}, q{i}) => {v}, K4 => {}, K5(u{i}) => 5 }}", rest(&v)),
     }
 }
